@@ -13,7 +13,7 @@ Results are appended to /verif/selftest_results.jsonl.
 import json, os, subprocess, sys, time
 
 ENV = dict(os.environ, GOFLAGS="-mod=mod", GOPROXY="off", GOSUMDB="off", GOTOOLCHAIN="local")
-REPO = "/repo"
+REPO = os.environ.get("SELFTEST_REPO", "/repo")  # a scratch worktree of /repo for parallel regression runs
 
 # (id, properties expected to fail, file, old, new, description)
 MUTANTS = [
@@ -88,7 +88,7 @@ def suite_passes():
 
 def run_check(prop):
     t = time.time()
-    r = sh(f"VERIF_DEADLINE=120s /verif/run.sh {prop} quick 2>&1")
+    r = sh(f"VERIF_DEADLINE={os.environ.get('SELFTEST_DEADLINE', '120s')} /verif/run.sh {prop} quick 2>&1")
     lines = [l for l in r.stdout.splitlines() if l.startswith("VIOLATION") or l.startswith("  ")]
     return r.returncode, lines[:4], round(time.time() - t, 1)
 
@@ -169,6 +169,11 @@ if __name__ == "__main__":
     snap = f"/verif/.work/engine-snap-{os.getpid()}"
     shutil.copytree(os.environ.get("SELFTEST_ENGINE_SRC", "/verif/engine"), snap)
     ENV["VERIF_ENGINE"] = snap  # checks are built from this frozen copy: /verif/engine may be edited meanwhile
+    if REPO != "/repo":
+        # the engine module replaces the library by path: point the copy at the scratch worktree
+        gm = open(f"{snap}/go.mod").read().replace("=> /repo", f"=> {REPO}")
+        open(f"{snap}/go.mod", "w").write(gm)
+        ENV["VERIF_REPO"] = REPO
     atexit.register(lambda: shutil.rmtree(snap, ignore_errors=True))
     args = sys.argv[1:]
     if sh(f"git -C {REPO} status --porcelain").stdout.strip():
